@@ -170,6 +170,9 @@ struct Ctx {
 };
 
 #define VCHECK(c, prop, cond, ...) do { if(!(cond)) (c).fail(prop, __VA_ARGS__); } while(0)
+// A check that belongs to another property than the one in focus and that the model does not depend on: it is evaluated only when its own
+// property (or none) is in focus, so that under another focus the case goes on and that property's own consequences can be observed.
+#define VCHECK_OWN(c, prop, cond, ...) do { if(((c).focus().empty() || (c).focus() == (prop)) && !(cond)) (c).fail(prop, __VA_ARGS__); } while(0)
 
 struct Enum {
 	std::function<bool(const std::vector<uint32_t> &)> run;   // returns false when the run must stop
